@@ -2,7 +2,7 @@
 import os
 import shutil
 
-from vt import boot, harness, sdlgen, smodel
+from vt import boot, exec_common, harness, sdlgen, smodel
 
 LEVEL = "exploration"
 N_CASES = {"quick": 240, "thorough": 6000}
@@ -80,6 +80,15 @@ async def run_case(ctx, rng, index):
                 problems = sdlgen.compare_schema(s, resp["data"]["__schema"], await sdlgen.engine_builtins())
                 for p in problems[:6]:
                     ctx.violation("introspection-differs", "mode=%s %s" % (mode, p), case)
+                # the same question through named fragments and variables (includeDeprecated given as $d defaulting to true,
+                # $nd sent as false or left out in favour of the argument's own default): same data
+                vars_ = {"nd": False} if index % 2 else {"d": True, "nd": False}
+                rf = await e.execute(sdlgen.INTROSPECTION_QUERY_FRAGMENTS, variables=vars_, operation_name="IntrospectionQuery")
+                st.inc("evaluations")
+                st.inc("fragment_spelling_compared")
+                if rf.get("errors") or rf.get("data") != resp["data"]:
+                    ctx.violation("introspection-spelling-differs", "fragments + variables %r: %s" % (
+                        vars_, repr(rf.get("errors"))[:200] if rf.get("errors") else repr(exec_common.first_diff(resp["data"], rf.get("data")))[:300]), case)
                 # __type(name:) agrees with the types list, unknown names are null
                 by_name = {t["name"]: t for t in resp["data"]["__schema"]["types"]}
                 names = list(s.types) + ["Int", "NoSuchType_", "query", ""]
